@@ -106,3 +106,179 @@ Example mediatype_example :
   = Ok (1, 10, Some [([99; 104; 97; 114; 115; 101; 116], [85; 83; 45; 65; 83; 67; 73; 73])]) /\
   mediatype [116; 101; 120; 116] = Ok (0, 4, None) /\ mediatype [] = Ok (0, 0, None).
 Proof. vm_compute. repeat split; reflexivity. Qed.
+
+(* --- well-formed unquoted values: type *( ";" key "=" value ) -------------------------------------- *)
+Definition token (t : list Z) : Prop := Forall (fun c => c <> 59 /\ c <> 32 /\ c <> 61) t.
+Definition render (ps : list (list Z * list Z)) : list Z :=
+  flat_map (fun kv => 59 :: fst kv ++ 61 :: snd kv) ps.
+
+Lemma token_forallb p t : (forall c, c <> 59 /\ c <> 32 /\ c <> 61 -> p c = true) -> token t -> forallb p t = true.
+Proof. intros Hp Ht. rewrite forallb_forall. unfold token in Ht. rewrite Forall_forall in Ht. intros x Hx. apply Hp. apply Ht. assumption. Qed.
+
+Lemma run_sp_token t R : token t -> (match R with c :: _ => c <> 32 | [] => True end) -> run is_sp (t ++ R) = 0.
+Proof.
+  intros Ht HR. destruct t as [|c t].
+  - cbn [app]. destruct R as [|c R]; [reflexivity|]. apply run_stop. unfold is_sp. lia.
+  - cbn [app]. apply run_stop. inversion Ht as [|? ? Hc _]; subst. unfold is_sp. lia.
+Qed.
+
+(* rest is empty or the next parameter *)
+Definition param_follows (rest : list Z) : Prop := rest = [] \/ exists r, rest = 59 :: r.
+
+Lemma params_step f pre k v rest acc :
+  token k -> token v -> param_follows rest ->
+  mediatype_params (S f) (pre ++ 59 :: k ++ 61 :: v ++ rest) (len pre) acc =
+  match rest with
+  | [] => Ok ((k, v) :: acc)
+  | _ => mediatype_params f (pre ++ 59 :: k ++ 61 :: v ++ rest) (len pre + 2 + len k + len v) ((k, v) :: acc)
+  end.
+Proof.
+  intros Hk Hv Hrest.
+  set (X := 59 :: k ++ 61 :: v ++ rest). set (s := pre ++ X).
+  pose proof (len_nonneg pre) as Lp. pose proof (len_nonneg k) as Lk. pose proof (len_nonneg v) as Lv.
+  assert (Hsk : forall n, 0 <= n -> skipz (len pre + n) s = skipz n X).
+  { intros n Hn. unfold s. apply skipz_app_more. assumption. }
+  assert (X1 : skipz 1 X = k ++ 61 :: v ++ rest) by reflexivity.
+  assert (X2 : skipz (1 + len k) X = 61 :: v ++ rest).
+  { unfold X. replace (1 + len k) with (len k + 1) by lia. rewrite skipz_cons by lia. apply skipz_app_len. }
+  assert (X3 : skipz (1 + len k + 1) X = v ++ rest).
+  { rewrite skipz_succ_tl by lia. rewrite X2. reflexivity. }
+  assert (X4 : skipz (1 + len k + 1 + len v) X = rest).
+  { rewrite skipz_add by lia. rewrite X3. apply skipz_app_len. }
+  assert (Hrest_sp : match rest with c :: _ => c <> 32 | [] => True end).
+  { destruct Hrest as [->|(r & ->)]; [exact I|lia]. }
+  assert (Hrest_val : run val_char rest = 0).
+  { destruct Hrest as [->|(r & ->)]; [reflexivity|]. apply run_stop. reflexivity. }
+  set (i1 := len pre + 1). set (i2 := i1 + len k). set (i3 := i2 + 1). set (i4 := i3 + len v).
+  assert (S1 : skipz i1 s = k ++ 61 :: v ++ rest) by (unfold i1; rewrite (Hsk 1) by lia; exact X1).
+  assert (S2 : skipz i2 s = 61 :: v ++ rest).
+  { unfold i2, i1. replace (len pre + 1 + len k) with (len pre + (1 + len k)) by lia. rewrite Hsk by lia. exact X2. }
+  assert (S3 : skipz i3 s = v ++ rest).
+  { unfold i3, i2, i1. replace (len pre + 1 + len k + 1) with (len pre + (1 + len k + 1)) by lia. rewrite Hsk by lia. exact X3. }
+  assert (S4 : skipz i4 s = rest).
+  { unfold i4, i3, i2, i1. replace (len pre + 1 + len k + 1 + len v) with (len pre + (1 + len k + 1 + len v)) by lia.
+    rewrite Hsk by lia. exact X4. }
+  assert (E1 : scan is_sp s i1 = i1).
+  { unfold scan. rewrite S1. rewrite (run_sp_token k (61 :: v ++ rest) Hk) by lia. lia. }
+  assert (E2 : scan key_char s i1 = i2).
+  { unfold scan. rewrite S1.
+    rewrite run_app_all by (apply token_forallb; [|assumption]; intros c Hc; unfold key_char; lia).
+    rewrite (run_stop key_char 61) by reflexivity. unfold i2. lia. }
+  assert (E3 : scan is_sp s i2 = i2).
+  { unfold scan. rewrite S2. rewrite (run_stop is_sp 61) by reflexivity. lia. }
+  assert (E4 : scan is_sp s (i2 + 1) = i3).
+  { unfold scan. fold i3. rewrite S3. rewrite (run_sp_token v rest Hv Hrest_sp). lia. }
+  assert (E5 : scan val_char s i3 = i4).
+  { unfold scan. rewrite S3.
+    rewrite run_app_all by (apply token_forallb; [|assumption]; intros c Hc; unfold val_char; lia).
+    rewrite Hrest_val. unfold i4. lia. }
+  assert (E6 : scan is_sp s i4 = i4).
+  { unfold scan. rewrite S4. replace (run is_sp rest) with 0; [lia|].
+    destruct Hrest as [->|(r & ->)]; [reflexivity|]. symmetry. apply run_stop. reflexivity. }
+  assert (Ls : len s = len pre + 1 + len k + 1 + len v + len rest).
+  { unfold s, X. rewrite len_app, len_cons, len_app, len_cons, len_app. lia. }
+  pose proof (len_nonneg rest) as Lr.
+  assert (Hkey : checked_slice s i1 i2 = Some k).
+  { rewrite checked_slice_ok by (unfold i2, i1; lia).
+    f_equal. unfold s, X. replace (pre ++ 59 :: k ++ 61 :: v ++ rest) with ((pre ++ [59]) ++ k ++ (61 :: v ++ rest))
+      by (rewrite <- app_assoc; reflexivity).
+    unfold i2, i1. replace (len pre + 1) with (len (pre ++ [59])) by (rewrite len_app; reflexivity). apply slice_app_mid. }
+  assert (Hvalue : checked_slice s i3 i4 = Some v).
+  { rewrite checked_slice_ok by (unfold i4, i3, i2, i1; lia).
+    f_equal. unfold s, X.
+    replace (pre ++ 59 :: k ++ 61 :: v ++ rest) with ((pre ++ 59 :: k ++ [61]) ++ v ++ rest)
+      by (repeat (rewrite <- app_assoc; cbn [app]); reflexivity).
+    unfold i4, i3, i2, i1. replace (len pre + 1 + len k + 1) with (len (pre ++ 59 :: k ++ [61]))
+      by (rewrite len_app, len_cons, len_app; change (len [61]) with 1; lia).
+    apply slice_app_mid. }
+  assert (G1 : guarded (fun c => c =? 61) s i2 = Some true).
+  { rewrite guarded_hd by (unfold i2, i1; lia). rewrite S2. reflexivity. }
+  assert (G2 : guarded (fun c => c =? 59) s i4 = Some (match rest with [] => false | _ => true end)).
+  { rewrite guarded_hd by (unfold i4, i3, i2, i1; lia). rewrite S4.
+    destruct Hrest as [->|(r & ->)]; reflexivity. }
+  cbn [mediatype_params]. fold i1. rewrite E1, E2, Hkey, E3, G1, E4, E5, Hvalue, E6, G2.
+  destruct rest as [|c0 r0]; [reflexivity|]. f_equal. unfold i4, i3, i2, i1. lia.
+Qed.
+
+Definition kv_token (kv : list Z * list Z) : Prop := token (fst kv) /\ token (snd kv).
+
+Lemma render_follows ps : param_follows (render ps).
+Proof. destruct ps as [|kv ps]; [left; reflexivity|right]. cbn [render flat_map app]. eauto. Qed.
+
+Lemma params_render : forall ps pre acc fuel kv,
+  Forall kv_token (kv :: ps) -> (length ps < fuel)%nat ->
+  mediatype_params fuel (pre ++ render (kv :: ps)) (len pre) acc = Ok (rev (kv :: ps) ++ acc).
+Proof.
+  induction ps as [|kv' ps IH]; intros pre acc fuel [k v] Hall Hf.
+  - destruct fuel as [|f]; [cbn in Hf; lia|].
+    inversion Hall as [|? ? [Hk Hv] _]; subst. cbn [fst snd] in *.
+    cbn [render flat_map fst snd]. rewrite app_nil_r.
+    replace (59 :: k ++ 61 :: v) with (59 :: k ++ 61 :: v ++ []) by (rewrite app_nil_r; reflexivity).
+    rewrite params_step by (try assumption; left; reflexivity). reflexivity.
+  - destruct fuel as [|f]; [cbn in Hf; lia|]. cbn [length] in Hf.
+    inversion Hall as [|? ? [Hk Hv] Hrest]; subst. cbn [fst snd] in *.
+    change (render ((k, v) :: kv' :: ps)) with ((59 :: k ++ 61 :: v) ++ render (kv' :: ps)).
+    replace ((59 :: k ++ 61 :: v) ++ render (kv' :: ps)) with (59 :: k ++ 61 :: v ++ render (kv' :: ps))
+      by (cbn [app]; rewrite <- app_assoc; reflexivity).
+    rewrite params_step by (try assumption; apply render_follows).
+    destruct (render (kv' :: ps)) as [|c0 r0] eqn:Er; [destruct kv'; discriminate|]. rewrite <- Er.
+    replace (pre ++ 59 :: k ++ 61 :: v ++ render (kv' :: ps)) with ((pre ++ 59 :: k ++ 61 :: v) ++ render (kv' :: ps))
+      by (repeat (rewrite <- app_assoc; cbn [app]); reflexivity).
+    replace (len pre + 2 + len k + len v) with (len (pre ++ 59 :: k ++ 61 :: v))
+      by (rewrite len_app, len_cons, len_app, len_cons; lia).
+    rewrite IH by (try assumption; lia).
+    cbn [rev]. repeat rewrite <- app_assoc. reflexivity.
+Qed.
+
+(* a mimetype of at least three bytes without ';' and ' ', followed by n >= 1 parameters key=value whose
+   keys and values contain no ';', ' ', '=': Mediatype returns the mimetype and exactly these pairs
+   (most recent first; as a map: later assignments to the same key win) *)
+Lemma mediatype_wellformed_proof :
+  forall ty kv ps, 3 <= len ty -> Forall (fun c => c <> 59 /\ c <> 32) ty -> Forall kv_token (kv :: ps) ->
+    mediatype (ty ++ render (kv :: ps)) = Ok (0, len ty, Some (rev (kv :: ps))).
+Proof.
+  intros ty kv ps Hlen Hty Hall. unfold mediatype.
+  set (b := ty ++ render (kv :: ps)).
+  assert (Hhead : exists c0 t0, ty = c0 :: t0 /\ c0 <> 32).
+  { destruct ty as [|c0 t0]; [unfold len in Hlen; cbn in Hlen; lia|]. inversion Hty as [|? ? Hc _]; subst. exists c0, t0. split; [reflexivity|lia]. }
+  destruct Hhead as (c0 & t0 & Ety & Hc0).
+  assert (Hoff : scan is_sp b 0 = 0).
+  { unfold scan. rewrite skipz_0. unfold b. rewrite Ety. cbn [app]. rewrite run_stop; [reflexivity|]. unfold is_sp. lia. }
+  rewrite Hoff. rewrite skipz_0.
+  unfold slice_ok. pose proof (len_nonneg b). replace ((0 <=? 0) && (0 <=? len b) && (len b <=? len b)) with true by lia. cbn [negb].
+  (* the first ';' or ' ' at or after index 3 is the ';' of the first parameter *)
+  assert (Hrender : exists r, render (kv :: ps) = 59 :: r) by (cbn [render flat_map app]; eauto).
+  destruct Hrender as [r Er].
+  assert (Hi : scan (fun c => negb (is_semi_or_sp c)) b 3 = len ty).
+  { unfold scan. unfold b.
+    assert (Hsk3 : skipz 3 (ty ++ render (kv :: ps)) = skipz 3 ty ++ render (kv :: ps)).
+    { unfold skipz. rewrite skipn_app. replace (Z.to_nat 3 - length ty)%nat with 0%nat by (unfold len in Hlen; lia). reflexivity. }
+    rewrite Hsk3. rewrite run_app_all.
+    - rewrite Er. rewrite run_stop by reflexivity. rewrite len_skipz by lia. lia.
+    - rewrite forallb_forall. intros x Hx. rewrite Forall_forall in Hty.
+      assert (In x ty) by (rewrite <- (firstz_skipz 3 ty); apply in_or_app; right; exact Hx).
+      specialize (Hty x H0). unfold is_semi_or_sp. lia. }
+  rewrite Hi.
+  assert (Lb : len b = len ty + len (render (kv :: ps))) by (unfold b; apply len_app).
+  assert (Lr : 0 < len (render (kv :: ps))) by (rewrite Er, len_cons; pose proof (len_nonneg r); lia).
+  replace (len b <=? len ty) with false by lia.
+  unfold b at 1. rewrite peekz_view. rewrite Er. cbn [hd_error]. replace (59 =? 32) with false by reflexivity.
+  rewrite Lb. unfold b.
+  rewrite params_render; [rewrite app_nil_r; reflexivity|assumption|].
+  (* fuel: one iteration per parameter, each parameter is at least two bytes *)
+  assert (Hfuel : forall l, Z.of_nat (length l) <= len (render l)).
+  { induction l as [|x l IHl]; [unfold len; cbn; lia|].
+    cbn [render flat_map length]. fold (render l). rewrite len_app, len_cons.
+    pose proof (len_nonneg (fst x ++ 61 :: snd x)). lia. }
+  specialize (Hfuel (kv :: ps)). cbn [length] in Hfuel. lia.
+Qed.
+
+Example mediatype_wellformed_example :
+  (* text/plain;charset=utf-8;a=b *)
+  mediatype ([116; 101; 120; 116; 47; 112; 108; 97; 105; 110] ++
+             render [([99; 104; 97; 114; 115; 101; 116], [117; 116; 102; 45; 56]); ([97], [98])]) =
+  Ok (0, 10, Some [([97], [98]); ([99; 104; 97; 114; 115; 101; 116], [117; 116; 102; 45; 56])]).
+Proof. vm_compute. reflexivity. Qed.
+
+Lemma no_panic_mediatype_proof : forall b, exists r, mediatype b = Ok r.
+Proof. intros b. destruct (mediatype_no_panic_proof b) as (off & mlen & ps & H & _). eauto. Qed.
